@@ -9,3 +9,5 @@ import MimicProps.C07
 #print axioms MimicProps.C07.code_loops_terminate
 #print axioms MimicProps.C07.code_read_str_null
 #print axioms MimicProps.C07.code_parameter_loop_bounded
+#print axioms MimicProps.C07.handshake_parser_is_code
+#print axioms MimicProps.C07.connect_attrs_is_code
